@@ -36,7 +36,7 @@ func (c21) Budget(tier string) int {
 func (c21) Describe() engine.Info {
 	return engine.Info{
 		Rule: "channel 1/2: duty steps counted over a window of K whole periods of 4x(2048-f) clocks must be exactly K (K chosen so that the window is about 20,000 machine cycles); channel 3: wave positions advanced over a window of K periods of 2x(2048-f) clocks (K even); channel 4: machine cycles between changes of the shift register = d(r)x2^s / 4 for every NR43 value with s<=13, and the output bit sequence at r=0,s=0 has period 32767 (15-bit) / 127 (7-bit) and no shorter period. quick: 64 frequencies per channel incl. 0, 1, 2046, 2047 and 64 NR43 values; thorough: all. While a channel is measured the other channels are triggered at random cycles. Signature = (channel, frequency or NR43 bucket)." +
-			" Class sweep: channel 1 while its sweep unit rewrites the frequency; fresh: channel 4 triggered on a machine as constructed (no power cycle, NR43 never written). Class ch4-retuned: triggered under another NR43 (shift codes 14/15 included), NR43 rewritten without trigger: clocked at the new rate from the second change on, first change within a second. One note in eight starts within three cycles of a whole second after construction.",
+			" Class sweep: channel 1 while its sweep unit rewrites the frequency; fresh: channel 4 triggered on a machine as constructed (no power cycle, NR43 never written). Class ch4-retuned: triggered under another NR43 (shift codes 14/15 included), NR43 rewritten without trigger: clocked at the new rate from the second change on, first change within a second. One note in eight starts within three cycles of a whole second after construction. One note in four is restarted at every distance 1..300 from its start (first step not before half a period); class ch4-retuned may visit the 7-bit mode for one clock while the low seven bits are all alike.",
 		Assumptions:    []string{"waveform positions are read through the verif accessor (duty index, wave position, shift register)", "the first period after a trigger is not judged (the reload delay after a trigger is not part of the statement)"},
 		RequiredProbes: []string{"fresh_machine_noise", "sweep_changed_the_frequency", "retuned_without_trigger", "square_periods", "wave_periods", "noise_periods", "noise_retuned_without_trigger", "note_started_on_a_second_boundary", "restarted_at_every_distance", "lfsr15_period", "lfsr7_period", "other_channel_triggered_during_measurement"},
 		RealComponents: realComponents, StubComponents: stubComponents,
